@@ -308,7 +308,9 @@ def digestStep (fx : Fixes) (s : Stack) (a : Nat) (chalOK : Bool) (re : TOut) (r
       else .crash                                        -- as found: `resp.StatusCode` on a nil *http.Response
     | some h =>
       if h.status ≠ 401 then .cont (some r) []
-      else if !chalOK then .stop (some r) .digest [.raised .digest]
+      -- a bad challenge, or (since /repo ceb620f) a body that cannot be sent again (io.Reader):
+      -- the middleware returns a digest error instead of re-sending
+      else if !chalOK || s.unreplayable then .stop (some r) .digest [.raised .digest]
       else digestResend fx s a (forget fx r) re
 
 def stageStep (fx : Fixes) (s : Stack) (a : Nat) (resp : Option Resp) : RAct → StepOut
